@@ -141,20 +141,36 @@ class NFA:
         return frozenset(seen)
 
 
-def build_nfa(alpha, parsed, anchored=True):
-    """NFA for a parsed pattern.  The pattern must be anchored at both ends (^...$), which is what `match` against
-    a `^(?:...)$` regex means for the whole string; `$` before a final newline is not modelled (the values never end in \\n
-    when they come from a plain scalar; noted as an assumption)."""
+def build_nfa(alpha, parsed, anchored=True, mode='fullmatch-anchored'):
+    """NFA for a parsed pattern.  In the default mode the pattern must be anchored at both ends (^...$), which is what
+    `match` against a `^(?:...)$` regex means for the whole string; `$` before a final newline is not modelled (the values
+    never end in \\n when they come from a plain scalar; noted as an assumption).  With mode 'match' / 'search' / 'fullmatch'
+    the language is that of the words the named `re` method accepts: a missing anchor leaves that end open (any text)
+    where the method does not anchor it itself."""
     n = NFA(alpha)
     items = list(parsed)
+    has_b = bool(items) and items[0][0] is C.AT and items[0][1] in (C.AT_BEGINNING, C.AT_BEGINNING_STRING)
+    has_e = bool(items) and items[-1][0] is C.AT and items[-1][1] in (C.AT_END, C.AT_END_STRING)
+    open_b = open_e = False
     if anchored:
-        if not items or items[0][0] is not C.AT or items[0][1] not in (C.AT_BEGINNING, C.AT_BEGINNING_STRING):
-            raise AnalysisError('regex is not anchored at the beginning')
-        if items[-1][0] is not C.AT or items[-1][1] not in (C.AT_END, C.AT_END_STRING):
-            raise AnalysisError('regex is not anchored at the end')
-        items = items[1:-1]
+        if mode == 'fullmatch-anchored':
+            if not has_b:
+                raise AnalysisError('regex is not anchored at the beginning')
+            if not has_e:
+                raise AnalysisError('regex is not anchored at the end')
+        else:
+            open_b = mode == 'search' and not has_b
+            open_e = mode in ('match', 'search') and not has_e
+        items = items[1 if has_b else 0:len(items) - 1 if has_e else len(items)]
     s = n.new()
+    if open_b:
+        n.tr[s].append((frozenset(alpha.all()), s))
     e = _seq(n, items, s)
+    if open_e:
+        t = n.new()
+        n.eps[e].add(t)
+        n.tr[t].append((frozenset(alpha.all()), t))
+        e = t
     n.start = s
     n.accept = {e}
     return n
@@ -456,8 +472,8 @@ def _parse(pattern, flags=0):
     return items
 
 
-def compile_regex(alpha, pattern, flags=0):
-    return determinize(build_nfa(alpha, _parse(pattern, flags)))
+def compile_regex(alpha, pattern, flags=0, mode='fullmatch-anchored'):
+    return determinize(build_nfa(alpha, _parse(pattern, flags), mode=mode))
 
 
 def points_of(pattern, flags=0):
